@@ -25,7 +25,9 @@ EXPLANATION = (
     "64-bit kernel that does so keeps only the low half of a partial sum); every carquet_dispatch_<slot> "
     "wrapper, executed abstractly with the table seeded with marker kernels and the initialiser hooked, "
     "builds the table when it is not built and then calls exactly its own slot with its own arguments in "
-    "order. Decides these clauses, not equality of outputs with the scalar definition; ARM kernels are "
+    "order; (5) `cmpgt(and(x, M), 0)` with a constant M of single-bit lanes is a bit test: no lane of M may be "
+    "the sign bit of the compared width (the masked value is then negative and a set bit reads as clear). "
+    "Decides these clauses, not equality of outputs with the scalar definition; ARM kernels are "
     "not part of this build.")
 
 DP = "src/simd/dispatch.c"
@@ -291,6 +293,9 @@ def run(ctx):
     from ..rules import lanes
     nlan = lanes.check(ctx, P.funcs_under("src/simd/"))
     ctx.floor("C15 lane extractions with a lane-typed operand", nlan, 3)
+    ctx.clause("C15.5 a single-bit mask test is not decided by a signed vector compare that the sign-bit lane of the mask makes negative")
+    nsb = lanes.check_signed_bit_test(ctx, P.funcs_under("src/simd/"))
+    ctx.count("signed_bit_tests", nsb)
     init = P.inlined(P.fn("carquet_simd_dispatch_init", DP), 2)    # helpers that install a group of slots are expanded
     rec = P.record("carquet_simd_dispatch_t") if "carquet_simd_dispatch_t" in P.records else None
     if rec is None:
